@@ -39,7 +39,10 @@ RULE = (
     "re-meta, drop, add, move / copy a file, move a whole directory, file->directory, directory->file, "
     "toggle explicit / hashed directory entry; a rename arm draws hashes from three values so several "
     "deleted and added keys share a hash); either side may be None or empty; options with_unchanged, mode in "
-    "{full, hash_only, meta_only}, meta_cmp_key in {None, (isdir, isexec)}, shallow, with_renames "
+    "{full, hash_only, meta_only}, meta_cmp_key drawn from a family {none, identity, constant, tuples over "
+    "subsets of Meta's fields including the eq=False ones remote/is_link/destination/nlink} (a mutation "
+    "changes those fields alone; the reference applies the drawn key itself and, without a key, Meta's "
+    "own equality, which ignores the eq=False fields), shallow, with_renames "
     "(never with meta_only: asserted by the code), with_unknown. A storage arm attaches a cache "
     "ObjectStorage (HashFileDB on scratch) to both indexes and turns 1-3 non-root directories into "
     "unloaded .dir entries: loadable (listing object written as reference bytes, files below it come "
@@ -78,6 +81,8 @@ ASSUMPTIONS = [
     "seen/not-seen combination is required for them",
     "SQLite arm: entries are restricted to what Meta.to_dict()/from_dict() round-trips (no mtime/inode; no "
     "Meta() on an entry without a hash, which is stored as {} and read back as None)",
+    "without meta_cmp_key (or with the identity) metas compare by Meta.__eq__, i.e. remote, is_link, "
+    "destination and nlink (declared eq=False) do not count; key functions are None-safe like the callers'",
     "hash_only and meta_only are not combined; with_renames is not combined with meta_only (assert in diff())",
 ]
 
@@ -101,7 +106,21 @@ FILE_METAS = [
     {}, {"size": 3}, None, {"isexec": True}, {}, {"size": 0}, {"size": 3}, None, {"size": 4},
     {"size": 3, "isexec": True}, {"etag": "e1"}, {"etag": "e2"}, {"md5": _V[1]},
     {"version_id": "v1", "size": 3}, {"mtime": 1.5, "inode": 7, "size": 3}, {"checksum": "c"},
+    {"size": 3, "remote": "r1"}, {"size": 3, "is_link": True, "destination": "t1"}, {"remote": "r2"},
 ]
+# Meta fields declared eq=False: invisible to Meta.__eq__, visible to a caller's meta_cmp_key
+NONEQ = ("remote", "is_link", "destination", "nlink")
+NONEQ_EDITS = [{"remote": "r1"}, {"is_link": True, "destination": "t1"}, {"remote": "r2"},
+               {"is_link": True, "destination": "t2"}, {"nlink": 2}, {"remote": None},
+               {"is_link": False, "destination": None}, {"nlink": 1}]
+# meta_cmp_key family: no key, field tuples (also over the eq=False fields), identity, constant
+CMPKEYS = [
+    False, ["isdir", "isexec"], ["isdir", "is_link", "destination"], False, ["remote"],
+    ["isdir", "size", "is_link", "destination", "remote"], "identity", ["size", "remote", "nlink"],
+    ["isdir", "isexec"], "const", ["etag", "md5", "version_id", "checksum"], ["nlink"], ["destination"],
+    ["isdir", "size", "nfiles", "isexec", "mtime", "inode"],
+]
+META_DEFAULTS = {"isdir": False, "isexec": False, "is_link": False, "nlink": 1}
 DIR_EXTRAS = [{}, {}, {}, {"nfiles": 2}, {"size": 7, "nfiles": 1}, {"isexec": True}]
 
 _names = st.sampled_from(NAMES)
@@ -110,6 +129,8 @@ _hashes_ren = st.sampled_from([["md5", _V[0]], ["md5", _V[1]], ["md5", _V[0]], N
                                ["md5", None], ["sha256", _V[0]]])
 _metas = st.sampled_from(FILE_METAS)
 _extras = st.sampled_from(DIR_EXTRAS)
+_cmpkeys = st.sampled_from(CMPKEYS)
+_noneq = st.sampled_from(NONEQ_EDITS)
 # strategies are built once (building one per draw dominates the cost of a case otherwise)
 _bool = st.booleans()
 _hashed = st.sampled_from([True, False, True])
@@ -187,15 +208,15 @@ def _get(root, path):
     return node
 
 
-MUTATIONS = ["rehash", "move", "remeta", "add", "drop", "f2d", "d2f", "explicit", "hashed", "rehash",
-             "move", "remeta", "add", "dirmeta", "dup", "mvdir"]
+MUTATIONS = ["rehash", "noneq", "move", "remeta", "add", "drop", "f2d", "d2f", "explicit", "hashed", "rehash",
+             "move", "remeta", "add", "dirmeta", "dup", "mvdir", "noneq"]
 
 
 MUTATIONS_REN = ["move", "mvdir", "move", "rehash", "drop", "add", "mvdir", "move", "f2d", "dup", "d2f",
-                 "explicit", "hashed", "remeta"]
+                 "explicit", "hashed", "remeta", "noneq"]
 
 
-MUTATIONS_STORE = ["rehash", "uval", "add", "unlazy", "lazy", "unenum", "remeta", "move", "drop", "f2d",
+MUTATIONS_STORE = ["rehash", "uval", "add", "unlazy", "lazy", "unenum", "remeta", "move", "drop", "noneq", "f2d",
                    "d2f", "explicit", "hashed", "mvdir"]
 
 
@@ -214,12 +235,17 @@ def _mutate(draw, root, muts, hs):  # noqa: C901, PLR0912
     op = _pick(draw, muts)
     files = _paths(root, "f")
     dirs = _paths(root, "d")
-    if op in ("rehash", "remeta", "move", "f2d", "dup") and not files:
+    if op in ("rehash", "remeta", "noneq", "move", "f2d", "dup") and not files:
         op = "add"
     if op == "rehash":
         _get(root, _pick(draw, files))["h"] = draw(hs)
     elif op == "remeta":
         _get(root, _pick(draw, files))["m"] = draw(_metas)
+    elif op == "noneq":
+        # change only fields Meta.__eq__ ignores (symlink retargeted, file moved to another remote)
+        node = _get(root, _pick(draw, files))
+        node["m"] = {k: v for k, v in {**(node["m"] or {}), **draw(_noneq)}.items()
+                     if v is not None and v is not False and (k, v) != ("nlink", 1)}
     elif op == "drop":
         cands = [p for p in _paths(root, None) if p]
         if cands:
@@ -331,13 +357,16 @@ def _flatten(root, storage=False):
     return out
 
 
+SQ_LOST = ("mtime", "inode", "is_link", "destination", "nlink")   # not written by Meta.to_dict()
+
+
 def _sq_spec(spec):
     """Entries in a form that survives the SQLite serialisation unchanged: Meta.to_dict() has no
     mtime/inode, and Meta() is written as {} and read back as None (visible only without a hash)."""
     out = []
     for key, meta, h, isdir in spec:
         if meta is not None:
-            meta = {k: v for k, v in meta.items() if k not in ("mtime", "inode")}
+            meta = {k: v for k, v in meta.items() if k not in SQ_LOST}
             if not meta and not (h == "D" or (h is not None and h[1])):
                 meta = None
         out.append([key, meta, h, isdir])
@@ -429,7 +458,7 @@ def cases(draw, mode=None, renames=None, storage=False, sqlite=False):
     opts = {
         "mode": mode,
         "with_unchanged": draw(_bool),
-        "cmpkey": draw(_bool),
+        "cmpkey": draw(_cmpkeys),
         "shallow": draw(_i4) == 3,
         "with_renames": bool(renames and mode != "meta"),
         "with_unknown": draw(_i6) == 5,
@@ -464,7 +493,7 @@ def _truthy(h):
 def _norm_meta(m):
     if m is None:
         return None
-    return {k: v for k, v in m.items() if v is not None and v is not False}
+    return {k: v for k, v in m.items() if v is not None and v is not False and (k, v) != ("nlink", 1)}
 
 
 UVALS = ["c" * 32, "d" * 32, "e" * 32, "c" * 32]
@@ -576,10 +605,23 @@ def view(full, shallow):
     return out
 
 
+def cmp_fields(cmpkey):
+    if cmpkey is True:   # cases recorded before the key family existed
+        return ["isdir", "isexec"]
+    return cmpkey if isinstance(cmpkey, list) else None
+
+
 def _cmp(m, cmpkey):
-    if m is None or not cmpkey:
-        return m
-    return (bool(m.get("isdir")), bool(m.get("isexec")))
+    """The caller's key applied to a (non-None) reference meta; without a key function, or with the
+    identity, metas compare by Meta's own equality, which ignores the fields declared eq=False."""
+    if m is None:
+        return None
+    if cmpkey == "const":
+        return 0
+    fields = cmp_fields(cmpkey)
+    if fields is None:
+        return {k: v for k, v in m.items() if k not in NONEQ}
+    return tuple(m.get(f, META_DEFAULTS.get(f)) for f in fields)
 
 
 def ref_meta_diff(om, nm, cmpkey):
@@ -711,7 +753,7 @@ def check_history(spec, history):
         raise HarnessError(f"history does not end in the spec: {final} != {want}")
     for e in spec:
         m = e[1] or {}
-        if "mtime" in m or "inode" in m or (e[1] == {} and not _truthy(spec_hash(spec, tuple(e[0]), e[2]))):
+        if any(f in m for f in SQ_LOST) or (e[1] == {} and not _truthy(spec_hash(spec, tuple(e[0]), e[2]))):
             raise HarnessError(f"entry {e} does not survive SQLite serialisation unchanged")
 
 
@@ -737,11 +779,16 @@ def build_sqlite(spec, history, path):
     return idx
 
 
-def _meta_cmp_key(meta):
-    # the comparison key index checkout passes (dvc_data.index.checkout._diff)
-    if meta is None:
-        return meta
-    return (meta.isdir, meta.isexec)
+def make_cmp_key(cmpkey):
+    """The meta_cmp_key callable for a case; None-safe like the ones callers pass (index checkout)."""
+    if not cmpkey:
+        return None
+    if cmpkey == "identity":
+        return lambda meta: meta
+    if cmpkey == "const":
+        return lambda meta: 0
+    fields = tuple(cmp_fields(cmpkey))
+    return lambda meta: None if meta is None else tuple(getattr(meta, f) for f in fields)
 
 
 def real_diff(old, new, opts, **over):
@@ -755,7 +802,7 @@ def real_diff(old, new, opts, **over):
         with_unknown=o["with_unknown"],
         hash_only=o["mode"] == "hash",
         meta_only=o["mode"] == "meta",
-        meta_cmp_key=_meta_cmp_key if o["cmpkey"] else None,
+        meta_cmp_key=make_cmp_key(o["cmpkey"]),
         shallow=o["shallow"],
     ))
 
@@ -1113,6 +1160,20 @@ def _run(case, odb, sqdir=None, handles=None):  # noqa: C901, PLR0912, PLR0915
     for o in ("with_unchanged", "cmpkey", "shallow", "with_renames", "with_unknown"):
         if opts[o]:
             classes.append(o)
+    if isinstance(cmpkey, str):
+        classes.append(f"cmpkey:{cmpkey}")
+    reads_noneq = bool(set(cmp_fields(cmpkey) or ()) & set(NONEQ))
+    if reads_noneq:
+        classes.append("cmpkey:reads-eq-False-field")
+    only_noneq = [
+        k for k in set(ov) & set(nv)
+        if ov[k]["meta"] is not None and nv[k]["meta"] is not None and ov[k]["meta"] != nv[k]["meta"]
+        and _cmp(ov[k]["meta"], False) == _cmp(nv[k]["meta"], False)
+    ]
+    if only_noneq:
+        classes.append("meta-differs-only-in-eq-False-fields")
+        if reads_noneq and any(_cmp(ov[k]["meta"], cmpkey) != _cmp(nv[k]["meta"], cmpkey) for k in only_noneq):
+            classes.append("meta-differs-only-in-eq-False-fields:seen-by-cmpkey")
     if case["old"] is None or case["new"] is None:
         classes.append("one-side-None")
     elif not case["old"] or not case["new"]:
